@@ -21,6 +21,15 @@ Proof.
     + eexists; split; [reflexivity|]. split; [discriminate|]. split; [intros a Ha; discriminate | right; eexists; reflexivity].
 Qed.
 
+Lemma call_api_err {A} (c : call) (ap : world -> (A + errkind) * world) st er st' :
+  call_api c ap st = (Err er, st') -> rs_log st' = (c, Some er) :: rs_log st.
+Proof.
+  unfold call_api. destruct (take_fault _ _ _) as [fo fs']. destruct fo as [f|].
+  - destruct f; try (intros H; inversion H; subst; reflexivity).
+    destruct (ap (rs_api st)) as [x w']. intros H; inversion H; subst. reflexivity.
+  - destruct (ap (rs_api st)) as [[a|e] w']; intros H; inversion H; subst. reflexivity.
+Qed.
+
 (* newest-first log: every pod adoption patch has a successful fresh GET of the set somewhere before it *)
 Definition adopt_guarded (log : list (call * option errkind)) : Prop :=
   forall pre n e post, log = pre ++ (CPatchPod n true, e) :: post -> In (CGetSet, None) post.
